@@ -21,6 +21,15 @@ R04e request-state model (opstatic/condnode.py): the visitor generator of each n
      exactly when the class' own `cancellable` / `forcible` (most derived override) says so - and a fresh generator possible
      from any reachable state. In no reachable state is the body invoked with the cancel flag set: the property that accepts
      a cancel, the tests the visitor makes after resuming and the activation helper agree.
+R04f a completion that belongs to an earlier invocation does not complete the re-armed node: in Tracking.mark_completed the write
+     `node.completed = True` is guarded by the invocation identity (the state's instance id is the record's latest invocation) -
+     otherwise a command of the previous Alarm run (or macro call) that finishes after the re-arm marks the fresh node
+     completed and the instruction is skipped in the next run.
+R04g re-arm unregisters the body's interrupts: in visit_AlarmNode the recursive reset is preceded by a loop over the node's
+     descendants that unregisters their interrupts - a Watch/Alarm of the body whose handler stays registered continues in the
+     middle of the reset body and ignores its own (reset) cancel flag.
+R04h a handler unregistered earlier in the tick is not resumed: in tick_iterate_subticks the step of each interrupt of the
+     iterated copy is guarded by a test that the interrupt is still the registered one.
 Decides these orderings and, for cancel/force, every interleaving of requests with the visitor's yields over the boolean
 abstraction; the timing of End block relative to a tick is decided by R04c/R04d only.
 """
@@ -226,3 +235,57 @@ def run(ctx) -> None:
             ctx.fail("R04e", f, bn.ast, f"{vname}: body never invoked with the cancel flag set",
                      f"the body of a cancelled {kname[:-4]} runs: a cancel request is accepted at a point after which the visitor no "
                      f"longer tests the flag | history: {m.history(bad[0])}")
+
+    # ---- R04f
+    ctx.rule("R04f", "completion of an earlier invocation leaves the re-armed node alone")
+    mc = prog.func("openpectus.lang.exec.tracking:Tracking.mark_completed")
+    ctx.analysed(mc)
+    gm = cfg_of(mc)
+    wr = [n for n in gm.nodes if n.kind == "stmt" and any(t.attr == "completed" and isinstance(v, ast.Constant) and v.value is True
+                                                           for t, v, st in assigned_attrs(n.ast))]
+    if not wr:
+        raise AnchorError("Tracking.mark_completed: node.completed = True not found")
+    from ..util import local_single_defs as _lsd4
+    inst = "Tracking.mark_completed: node.completed = True only for the record's latest invocation"
+    guarded = all(any(pol and "last_instance_id" in norm(_lsd4(mc).get(a, ast.Name(id=a))) + a for a, pol in facts_at(gm, w)) for w in wr)
+    if guarded:
+        ctx.ok("R04f", inst)
+    else:
+        ctx.fail("R04f", mc, wr[0].ast, inst, "the node is marked completed whichever invocation the completion belongs to: a uod command of the "
+                 "previous Alarm run (or macro call) that finishes after the body was reset marks the fresh node completed, and the "
+                 "next run skips that instruction")
+    # ---- R04g
+    ctx.rule("R04g", "an Alarm that re-arms unregisters the interrupts of the body it resets")
+    va = pi.methods["visit_AlarmNode"]
+    ga = cfg_of(va)
+    apar = va.node.args.args[1].arg
+    resets = [n for n in ga.nodes if n.ast is not None and any(call_attr(c) == "reset_runtime_state" and norm(c.func.value) == apar for c in n.calls())]
+    if not resets:
+        raise AnchorError("visit_AlarmNode: reset_runtime_state on the node not found")
+    unreg_loops = [n for n in ga.nodes if n.kind == "for" and "get_child_nodes" in norm(n.ast.iter) and apar in norm(n.ast.iter)
+                   and any(isinstance(c, ast.Call) and call_attr(c) == "_unregister_interrupt" and c.args
+                           and norm(c.args[0]) == norm(n.ast.target) for c in ast.walk(n.ast))]
+    inst = "visit_AlarmNode: descendants' interrupts are unregistered before the recursive reset"
+    if unreg_loops and all(any(ga.dominates(l, r) for l in unreg_loops) for r in resets):
+        ctx.ok("R04g", inst)
+    else:
+        ctx.fail("R04g", va, resets[0].ast, inst, "the reset clears the state (activated, cancelled, child index) of the Watches and Alarms in the "
+                 "body while their handlers stay registered: a stale handler continues in the middle of the reset body, a cancelled "
+                 "inner Alarm runs anyway, and an inner handler can capture the outer Alarm")
+    # ---- R04h
+    ctx.rule("R04h", "an interrupt unregistered earlier in the tick is not resumed")
+    ts = pi.methods["tick_iterate_subticks"]
+    ctx.analysed(ts)
+    gt = cfg_of(ts)
+    steps = [n for n in gt.nodes if n.ast is not None and any(isinstance(c.func, ast.Name) and c.func.id == "next" and c.args
+                                                              and norm(c.args[0]).endswith(".actions") for c in n.calls())]
+    if not steps:
+        raise AnchorError("tick_iterate_subticks: next(<interrupt>.actions) not found")
+    inst = "tick_iterate_subticks: each interrupt step is guarded by `still registered`"
+    ok_ = all(any("_interrupts_map" in a for a, pol in facts_at(gt, s_)) for s_ in steps)
+    if ok_:
+        ctx.ok("R04h", inst)
+    else:
+        ctx.fail("R04h", ts, steps[0].ast, inst, "the loop walks a copy of the interrupt list taken before the tick: a Watch/Alarm that was aborted "
+                 "earlier in this tick (its block ended) is still resumed once, past its ended-block checks - its body runs after the "
+                 "block has ended, and an Alarm re-registers itself")
